@@ -51,6 +51,7 @@ type interpreter struct {
 	undo               []undoEntry
 	logging            bool
 	epoch              int
+	tracedPanic        bool
 }
 
 type undoEntry struct {
@@ -211,6 +212,8 @@ func (i *interpreter) rollback() {
 	}
 	i.undo = i.undo[:0]
 }
+
+var debugPanics = os.Getenv("SYMGO_DEBUG") != ""
 
 // theInterp is the single interpreter of this process.
 var theInterp *interpreter
@@ -716,6 +719,13 @@ func runFrame(fr *frame) {
 		}
 		fr.panicking = true
 		fr.panic = r
+		if debugPanics && !fr.i.tracedPanic {
+			fr.i.tracedPanic = true
+			fmt.Fprintf(os.Stderr, "TARGET PANIC %s\n", panicString(r))
+			for f := fr; f != nil; f = f.caller {
+				fmt.Fprintf(os.Stderr, "   in %s\n", f.fn)
+			}
+		}
 		if fr.i.mode&EnableTracing != 0 {
 			fmt.Fprintf(os.Stderr, "Panicking: %T %v.\n", fr.panic, fr.panic)
 		}
